@@ -152,6 +152,25 @@ def run(ctx):
                     ctx.violation("child-roundtrip:%s>%s" % (ot, ty), "%s inside %s changes on print + parse" % (ty, ot), {"text": text})
             except Exception as ex:
                 ctx.violation("child-print:%s>%s" % (ot, ty), "%s inside %s cannot be printed: %s" % (ty, ot, type(ex).__name__), {"text": text})
+            # an EMPTY container of repeatable blocks (the auto-creating dict stores [] when the plural key is read, or the
+            # last block was removed) is still a container for the printer: nothing is written for it
+            if not singleton:
+                try:
+                    host = docs.Block(ot, [], False)
+                    hd = sweep.fast_loads(docs.render(sweep.nest(ot, host) if ot != "map" else host, docs.Layout())[0])
+                    node = hd
+                    while isinstance(node, dict) and node.get("__type__") != ot:
+                        nxt = [v for k, v in node.items() if not k.startswith("__")]
+                        node = (nxt[0][0] if isinstance(nxt[0], list) else nxt[0]) if nxt else None
+                    if isinstance(node, dict):
+                        want = docs.plain(hd)
+                        node[docs.plural(ty)]                       # auto-creates []
+                        ctx.note_case("empty-container:%s>%s" % (ot, ty))
+                        t4 = mappyfile.dumps(hd)
+                        if docs.plain(sweep.fast_loads(t4)) != want:
+                            ctx.violation("empty-container:%s>%s" % (ot, ty), "an empty %s list in %s changes what is printed: %r" % (docs.plural(ty), ot, t4[:120]), {"type": ot, "key": docs.plural(ty)})
+                except Exception as ex:
+                    ctx.violation("empty-container:%s>%s" % (ot, ty), "a %s holding an empty %s list cannot be printed and re-read: %s" % (ot, docs.plural(ty), type(ex).__name__), {"type": ot, "key": docs.plural(ty)})
             # a keyword of the PARENT written after the child block is still the parent's keyword: looked up in the
             # parent's schema by the printer (a free string must come out quoted) and kept by print + parse
             child_keys = set((raw.get(ty + ".json") or {}).get("properties") or {})
